@@ -10,16 +10,20 @@ Local Open Scope string_scope.
 
 (* ---------- structural ties ---------- *)
 Lemma tie_idl_basic_atoms : f_idl_basic_atoms = idl_basic_names \/ f_idl_basic_atoms = ["int8"; "uint8"; "int16"; "uint16"; "int32"; "uint32"; "int64"; "uint64"; "float32"; "float64"; "bool"; "str"; "obj"; "any"; "unknown"] \/
-  f_idl_basic_atoms = (idl_basic_names ++ ["nothing"])%list.
-Proof. solve [left; reflexivity | right; left; reflexivity | right; right; reflexivity]. Qed.
+  f_idl_basic_atoms = (idl_basic_names ++ ["nothing"])%list \/
+  f_idl_basic_atoms = ["int8"; "uint8"; "int16"; "uint16"; "int32"; "uint32"; "int64"; "uint64"; "float32"; "float64"; "bool"; "str"; "obj"; "any"; "unknown"; "nothing"].
+Proof. solve [left; reflexivity | right; left; reflexivity | right; right; left; reflexivity | right; right; right; reflexivity]. Qed.
 (* basicType(): atoms matching a prefix (pinned) or Token(name+`\b`) in a loop over the names (design/C18.fix.keyword_prefix_struct_name.diff) *)
 Lemma tie_idl_basicType_text : f_idl_basicType_text =
   "func basicType() parsec.Parser { return parsec.OrdChoice(nodifyBasicType, parsec.Atom("""", """"), parsec.Atom("""", """"), parsec.Atom("""", """"), parsec.Atom("""", """"), parsec.Atom("""", """"), parsec.Atom("""", """"), parsec.Atom("""", """"), parsec.Atom("""", """"), parsec.Atom("""", """"), parsec.Atom("""", """"), parsec.Atom("""", """"), parsec.Atom("""", """"), parsec.Atom("""", """"), parsec.Atom("""", """"), parsec.Atom("""", """"), parsec.Atom("""", """"), parsec.Atom("""", """")) }"%string \/
   f_idl_basicType_text =
   "func basicType() parsec.Parser { names := []string{ """", """", """", """", """", """", """", """", """", """", """", """", """", """", """", } parsers := make([]interface{}, len(names)) for i, name := range names { parsers[i] = parsec.Token(name+"""", """") } return parsec.OrdChoice(nodifyBasicType, parsers...) }"%string \/
   f_idl_basicType_text =
-  "func basicType() parsec.Parser { return parsec.OrdChoice(nodifyBasicType, parsec.Atom("""", """"), parsec.Atom("""", """"), parsec.Atom("""", """"), parsec.Atom("""", """"), parsec.Atom("""", """"), parsec.Atom("""", """"), parsec.Atom("""", """"), parsec.Atom("""", """"), parsec.Atom("""", """"), parsec.Atom("""", """"), parsec.Atom("""", """"), parsec.Atom("""", """"), parsec.Atom("""", """"), parsec.Atom("""", """"), parsec.Atom("""", """"), parsec.Atom("""", """"), parsec.Atom("""", """"), parsec.Atom("""", """")) }"%string.
-Proof. solve [left; reflexivity | right; left; reflexivity | right; right; reflexivity]. Qed.
+  "func basicType() parsec.Parser { return parsec.OrdChoice(nodifyBasicType, parsec.Atom("""", """"), parsec.Atom("""", """"), parsec.Atom("""", """"), parsec.Atom("""", """"), parsec.Atom("""", """"), parsec.Atom("""", """"), parsec.Atom("""", """"), parsec.Atom("""", """"), parsec.Atom("""", """"), parsec.Atom("""", """"), parsec.Atom("""", """"), parsec.Atom("""", """"), parsec.Atom("""", """"), parsec.Atom("""", """"), parsec.Atom("""", """"), parsec.Atom("""", """"), parsec.Atom("""", """"), parsec.Atom("""", """")) }"%string \/
+  (* both repairs together: the word-boundary tokens over sixteen names *)
+  f_idl_basicType_text =
+  "func basicType() parsec.Parser { names := []string{ """", """", """", """", """", """", """", """", """", """", """", """", """", """", """", """", } parsers := make([]interface{}, len(names)) for i, name := range names { parsers[i] = parsec.Token(name+"""", """") } return parsec.OrdChoice(nodifyBasicType, parsers...) }"%string.
+Proof. solve [left; reflexivity | right; left; reflexivity | right; right; left; reflexivity | right; right; right; reflexivity]. Qed.
 
 (* every name nodifyBasicType switches on is mapped by the model, to the scalar with that IDL name *)
 (* (with "nothing" -> void in the source of design/C18.fix.empty_tuple_or_void_in_container.diff) *)
